@@ -294,6 +294,8 @@ def jobs(tier):
     shapes = [(2, 2), (2, 3)] if tier == 'quick' else [(2, 2), (2, 3), (3, 2), (3, 3)]
     for nr, nc in shapes:
         for f in FORMS:
+            if nr > nc and f in ('list-of-sparse-rows', 'list-of-dicts'):
+                continue        # these forms take their orientation / shape from the data: only defined for nr <= nc here
             out.append(('forms', (nr, nc, f)))
     for nr, nc in ([(2, 2)] if tier == 'quick' else [(2, 2), (2, 3), (3, 2)]):
         for f in TYPED_FORMS:
